@@ -507,10 +507,13 @@ func runC19(a Args) tr.Summary {
 	wg.Wait()
 	// Prosumer end to end
 	for _, kind := range []string{"tcp", "mock"} {
-		for r := 0; r < 2; r++ {
+		for r := 0; r < 3; r++ {
 			id++
 			nontrivial++
-			c := c19Case{Mode: "prosumer", Kind: kind, TimeoutMs: 30, Pubs: 1 + r, N: 40, Seed: a.Seed*733 + int64(id)}
+			c := c19Case{Mode: "prosumer", Kind: kind, TimeoutMs: 30, Pubs: 1 + r%2, N: 40, Seed: a.Seed*733 + int64(id)}
+			if r == 2 {
+				c.Scenario, c.N = "resub", 150
+			}
 			sub := tr.New(fmt.Sprintf("%s.real%d", a.Out, id))
 			c19Run(sub, id, c)
 			sub.Close()
@@ -661,6 +664,31 @@ func c19Prosumer(t *tr.Writer, c c19Case) {
 	time.Sleep(10 * time.Millisecond)
 	var wg sync.WaitGroup
 	var accepted int64
+	stopResub := make(chan struct{})
+	var resubDone sync.WaitGroup
+	if c.Scenario == "resub" {
+		// subscribing during traffic: every Subscribe starts another poll loop, so loops overlap while
+		// messages flow (a third topic nobody publishes to comes and goes)
+		resubDone.Add(1)
+		go func() {
+			defer resubDone.Done()
+			for i := 0; ; i++ {
+				select {
+				case <-stopResub:
+					return
+				default:
+				}
+				if ok, err := ps.Subscribe("w", func(data interface{}, from string) {}); err == nil {
+					t.Emit(tr.Rec{"ev": "sub", "id": "a", "topic": "w", "ok": ok})
+				}
+				time.Sleep(time.Duration(200+i%7*150) * time.Microsecond)
+				if ok, err := ps.Unsubscribe("w"); err == nil {
+					t.Emit(tr.Rec{"ev": "unsub", "id": "a", "topic": "w", "ok": ok})
+				}
+				time.Sleep(time.Duration(100+i%5*100) * time.Microsecond)
+			}
+		}()
+	}
 	for p := 0; p < c.Pubs; p++ {
 		wg.Add(1)
 		go func(p int) {
@@ -677,6 +705,8 @@ func c19Prosumer(t *tr.Writer, c c19Case) {
 		}(p)
 	}
 	wg.Wait()
+	close(stopResub)
+	resubDone.Wait()
 	// everything published has been accepted (the client is subscribed): wait for the callbacks
 	for i := 0; i < 600 && atomic.LoadInt64(&seen) < atomic.LoadInt64(&accepted); i++ {
 		time.Sleep(5 * time.Millisecond)
